@@ -676,6 +676,10 @@ func (ce *callEngine) callGoFunc(ctx context.Context, m *wasm.ModuleInstance, f 
 	typ := f.funcType
 	lsn := f.parent.listener
 	if lsn != nil {
+		// Abort is delivered to the functions which have a frame, so Before must not be called for one that cannot get it.
+		if callStackCeiling <= len(ce.frames) {
+			panic(wasmruntime.ErrRuntimeStackOverflow)
+		}
 		params := stack[:typ.ParamNumInUint64]
 		ce.stackIterator.reset(ce.stack, ce.frames, f)
 		lsn.Before(ctx, m, f.definition(), params, &ce.stackIterator)
@@ -4606,6 +4610,10 @@ func i32Abs(v uint32) uint32 {
 func (ce *callEngine) callNativeFuncWithListener(ctx context.Context, m *wasm.ModuleInstance, f *function, fnl experimental.FunctionListener) context.Context {
 	def, typ := f.definition(), f.funcType
 
+	// Abort is delivered to the functions which have a frame, so Before must not be called for one that cannot get it.
+	if callStackCeiling <= len(ce.frames) {
+		panic(wasmruntime.ErrRuntimeStackOverflow)
+	}
 	ce.stackIterator.reset(ce.stack, ce.frames, f)
 	fnl.Before(ctx, m, def, ce.peekValues(typ.ParamNumInUint64), &ce.stackIterator)
 	ce.stackIterator.clear()
